@@ -24,8 +24,12 @@ import (
 	"github.com/honeytrap/honeytrap/event"
 	"github.com/honeytrap/honeytrap/pushers"
 	"github.com/honeytrap/honeytrap/services"
+	"github.com/honeytrap/honeytrap/utils/berlen"
 	logging "github.com/op/go-logging"
 )
+
+// maxMessageSize is the largest LDAP message accepted from a client
+const maxMessageSize = 4 * 1024 * 1024
 
 /*
 
@@ -217,7 +221,14 @@ func (s *ldapService) Handle(ctx context.Context, conn net.Conn) error {
 
 	for {
 
-		p, err := ber.ReadPacket(s.ConnReader)
+		// read one complete message first: the BER reader allocates the
+		// declared length of every element before reading its content
+		data, err := berlen.ReadElement(s.ConnReader, maxMessageSize)
+		if err != nil {
+			return err
+		}
+
+		p, err := ber.DecodePacketErr(data)
 		if err != nil {
 			return err
 		}
